@@ -9,6 +9,7 @@ import (
 	"os"
 	"os/exec"
 	"path/filepath"
+	"runtime"
 	"strings"
 	"sync"
 	"sync/atomic"
@@ -608,4 +609,16 @@ func explainMissing(cfg *SolverCfg, name string, ground, all []*Term, goal *Term
 			fmt.Printf("  WHY   under-instantiated assumption #%d (%d brute-force instances suffice): %s\n", qi, len(insts), qs)
 		}
 	}
+}
+
+// parallelism: number of solver workers (one per core, at most 16).
+func parallelism() int {
+	n := runtime.NumCPU()
+	if n > 16 {
+		n = 16
+	}
+	if n < 2 {
+		n = 2
+	}
+	return n
 }
